@@ -48,6 +48,7 @@ fn main() {
         "C16" => drive::<vcore::c16::C16>(&args),
         "C17" => drive::<vcore::c17::C17>(&args),
         "C19" => drive::<vcore::c19::C19>(&args),
+        "C12" => drive::<vcore::c12::C12>(&args),
         "C15" => drive::<vcore::c15::C15>(&args),
         _ => {
             eprintln!("unknown property id {id}");
